@@ -2,7 +2,9 @@
 
     One Gallina function per Rust function: [generate], [subcommand_details], [subcommands_of],
     [get_subcommands_of], [parser_of], [get_args_of], [value_completion], [write_opts_of],
-    [arg_conflicts], [write_flags_of], [write_positionals_of]; the escape functions are the chains
+    [arg_conflicts], [write_flags_of], [write_positionals_of] (a [z] prefix where another generator
+    model already uses the name: [zsubcommand_details], [zvalue_completion], [zhint_completion],
+    [zflag_line], [zcase_block], [znl]); the escape functions are the chains
     of [Escape/EscapeModel.v] (regenerated from the source on every run).  Every [expect] is a
     visible [None]:
       - the bin name of the root / of a parent ([crate::generate should have set the bin_name]),
@@ -44,7 +46,7 @@ Fixpoint zjoin (sep : list zpiece) (l : list (list zpiece)) : list zpiece :=
   | [] => []
   | x :: t => match t with [] => x | _ :: _ => x ++ sep ++ zjoin sep t end
   end.
-Definition nl : list zpiece := [Zx lf].
+Definition znl : list zpiece := [Zx lf].
 Definition text_or_default (o : option bytes) : bytes := match o with Some t => t | None => [] end.
 
 (** ---- parser_of ---- *)
@@ -72,12 +74,12 @@ Fixpoint parser_of_d (c : cmd) (d : cdesc) (bin_name : bytes) {struct c} : optio
               end) subs (cd_subs d)
   end.
 
-(** ---- value_completion ---- *)
+(** ---- zvalue_completion ---- *)
 Definition pv_shown (q : pval * option bytes) : bool := negb (pv_hide (fst q)).
 (** [r#"{name}\:"{tooltip}""#] *)
 Definition tip_entry (q : pval * option bytes) : list zpiece :=
   [Zx (zsh_escape_value (pv_name (fst q)) ++ lit "\:"""); Zh (text_or_default (snd q)); Zx (lit """")].
-Definition hint_completion (h : hint) : option bytes :=
+Definition zhint_completion (h : hint) : option bytes :=
   match h with
   | HUnknown => Some (lit "_default")
   | HOther => Some []
@@ -93,15 +95,15 @@ Definition hint_completion (h : hint) : option bytes :=
   | HUrl => Some (lit "_urls")
   | HEmailAddress => Some (lit "_email_addresses")
   end.
-Definition value_completion (p : arg * adesc) : option (list zpiece) :=
+Definition zvalue_completion (p : arg * adesc) : option (list zpiece) :=
   match possible_values (fst p) with
   | Some values =>
       let vs := zipd None values (ad_pvh (snd p)) in
       if existsb (fun q : pval * option bytes => pv_shown q && is_some (snd q)) vs
-      then Some ([Zx (lit "((")] ++ zjoin nl (map tip_entry (filter pv_shown vs)) ++ [Zx (lit "))")])
+      then Some ([Zx (lit "((")] ++ zjoin znl (map tip_entry (filter pv_shown vs)) ++ [Zx (lit "))")])
       else Some [Zx (lit "(" ++ intercalate (lit " ") (map pv_name (filter (fun pv => negb (pv_hide pv)) values))
                      ++ lit ")")]
-  | None => match hint_completion (a_get_hint (fst p)) with
+  | None => match zhint_completion (a_get_hint (fst p)) with
             | Some s => Some [Zx s]
             | None => None
             end
@@ -130,7 +132,7 @@ Definition multiple_of (a : arg) : bytes :=
 
 (** [vc.repeat(o.get_num_args().expect("built").min_values())]; [vn] is " " (no value names) *)
 Definition opt_vc (p : arg * adesc) : list zpiece :=
-  let vc := match value_completion p with
+  let vc := match zvalue_completion p with
             | Some val => Zx (lit ": :") :: val
             | None => [Zx (lit ": : ")]
             end in
@@ -150,29 +152,29 @@ Definition opt_lines (c : cmd) (g : option cmd) (p : arg * adesc) : list (list z
       | Some longs => map (opt_long_line c g p) longs
       | None => [] end).
 Definition write_opts_of (c : cmd) (d : cdesc) (g : option cmd) : list zpiece :=
-  zjoin nl (flat_map (opt_lines c g) (filter is_opt (zipd ad0 (c_args c) (cd_args d)))).
+  zjoin znl (flat_map (opt_lines c g) (filter is_opt (zipd ad0 (c_args c) (cd_args d)))).
 
 (** ---- write_flags_of ---- *)
-Definition flag_line (c : cmd) (g : option cmd) (p : arg * adesc) (dashes name : bytes) : list zpiece :=
+Definition zflag_line (c : cmd) (g : option cmd) (p : arg * adesc) (dashes name : bytes) : list zpiece :=
   [Zx (lit "'" ++ arg_conflicts c (fst p) g ++ multiple_of (fst p) ++ dashes ++ name ++ lit "[");
    Zh (text_or_default (ad_help (snd p))); Zx (lit "]' \")].
 Definition flag_lines (c : cmd) (g : option cmd) (p : arg * adesc) : list (list zpiece) :=
   (match a_short (fst p) with
    | Some short =>
-       flag_line c g p (lit "-") short
+       zflag_line c g p (lit "-") short
        :: (match get_visible_short_aliases (fst p) with
-           | Some al => map (flag_line c g p (lit "-")) al
+           | Some al => map (zflag_line c g p (lit "-")) al
            | None => [] end)
    | None => [] end)
   ++ (match a_long (fst p) with
       | Some long =>
-          flag_line c g p (lit "--") long
+          zflag_line c g p (lit "--") long
           :: (match get_visible_aliases (fst p) with
-              | Some al => map (flag_line c g p (lit "--")) al
+              | Some al => map (zflag_line c g p (lit "--")) al
               | None => [] end)
       | None => [] end).
 Definition write_flags_of (c : cmd) (d : cdesc) (g : option cmd) : list zpiece :=
-  zjoin nl (flat_map (flag_lines c g) (filter is_flag (zipd ad0 (c_args c) (cd_args d)))).
+  zjoin znl (flat_map (flag_lines c g) (filter is_flag (zipd ad0 (c_args c) (cd_args d)))).
 
 (** ---- write_positionals_of ---- *)
 (** [Arg::is_last_set] / [get_value_terminator]: not carried by [AotTree.arg] (outside the modelled class) *)
@@ -183,7 +185,7 @@ Definition positional_line (cardinality : bytes) (p : arg * adesc) : list zpiece
   [Zx (lit "'" ++ cardinality ++ lit ":" ++ a_id (fst p))]
   ++ (match ad_help (snd p) with Some t => [Zp t] | None => [] end)
   ++ [Zx (lit ":")]
-  ++ (match value_completion p with Some v => v | None => [] end)      (* unwrap_or_default *)
+  ++ (match zvalue_completion p with Some v => v | None => [] end)      (* unwrap_or_default *)
   ++ [Zx (lit "' \")].
 
 (** the loop, [catch_all_emitted] threaded through *)
@@ -207,7 +209,7 @@ Fixpoint positional_lines (has_subs : bool) (catch_all_emitted : bool) (l : list
   end.
 Definition is_pos (p : arg * adesc) : bool := a_is_positional (fst p).
 Definition write_positionals_of (c : cmd) (d : cdesc) : list zpiece :=
-  zjoin nl (positional_lines (has_subcommands c) false (filter is_pos (zipd ad0 (c_args c) (cd_args d)))).
+  zjoin znl (positional_lines (has_subcommands c) false (filter is_pos (zipd ad0 (c_args c) (cd_args d)))).
 
 (** ---- get_args_of ---- *)
 Definition args_header : list zpiece := [Zx (lit "_arguments ""${_arguments_options[@]}"" : \")].
@@ -223,16 +225,16 @@ Definition get_args_of (c : cmd) (d : cdesc) (p_global : option cmd) : option (l
     match c_bin c with
     | None => None              (* expect("crate::generate should have set the bin_name") *)
     | Some parent_bin_name =>
-        Some (zjoin nl (segments
+        Some (zjoin znl (segments
                         ++ [[Zx (lit """:: :_" ++ space_to_dd parent_bin_name ++ lit "_commands"" \")];
                             [Zx (lit """*::: :->" ++ c_name c ++ lit """ \")];
                             [Zx (lit "&& ret=0")]]))
     end
-  else Some (zjoin nl (segments ++ [[Zx (lit "&& ret=0")]])).
+  else Some (zjoin znl (segments ++ [[Zx (lit "&& ret=0")]])).
 
 (** ---- get_subcommands_of ---- *)
 Definition space_to_hyphen : bytes -> bytes := replace_byte 32 [45].
-Definition case_block (name name_hyphen pos : bytes) (subcommands : list zpiece) : list zpiece :=
+Definition zcase_block (name name_hyphen pos : bytes) (subcommands : list zpiece) : list zpiece :=
   [Zx (lf ++ lit "    case $state in" ++ lf ++
        lit "    (" ++ name ++ lit ")" ++ lf ++
        lit "        words=($line[" ++ pos ++ lit "] ""${words[@]}"")" ++ lf ++
@@ -258,7 +260,7 @@ Fixpoint get_subcommands_of (fuel : nat) (parent : cmd) (d : cdesc) : option (li
                      | Some (m, md) =>
                          match get_args_of m md (Some parent), get_subcommands_of f m md with
                          | Some subcommand_args, Some children =>
-                             Some (zjoin nl ([[Zx (lit "(" ++ fst nb ++ lit ")")]]
+                             Some (zjoin znl ([[Zx (lit "(" ++ fst nb ++ lit ")")]]
                                              ++ (if negb (is_nil subcommand_args) then [subcommand_args] else [])
                                              ++ (if negb (is_nil children) then [children] else [])
                                              ++ [[Zx (lit ";;")]]))
@@ -270,15 +272,15 @@ Fixpoint get_subcommands_of (fuel : nat) (parent : cmd) (d : cdesc) : option (li
                 match c_bin parent with
                 | None => None                    (* expect("crate::generate should have set the bin_name") *)
                 | Some parent_bin_name =>
-                    Some (case_block (c_name parent) (space_to_hyphen parent_bin_name)
+                    Some (zcase_block (c_name parent) (space_to_hyphen parent_bin_name)
                                      (dec (N.of_nat (List.length (get_positionals parent)) + 1))
-                                     (zjoin nl all_subcommands))
+                                     (zjoin znl all_subcommands))
                 end
             end
         end
     end.
 
-(** ---- subcommands_of / subcommand_details ---- *)
+(** ---- subcommands_of / zsubcommand_details ---- *)
 (** the inner [add_subcommands]: ['{name}:{help}' \] *)
 Definition describe_entry (about : option bytes) (name : bytes) : list zpiece :=
   [Zx (lit "'" ++ name ++ lit ":"); Zh (text_or_default about); Zx (lit "' \")].
@@ -286,7 +288,7 @@ Definition subcommands_of (p : cmd) (d : cdesc) : list zpiece :=
   let segments := flat_map (fun q : cmd * cdesc =>
                               map (describe_entry (cd_about (snd q))) (get_name_and_visible_aliases (fst q)))
                            (zipd cd0 (c_subs p) (cd_subs d)) in
-  if negb (is_nil segments) then zjoin nl ([[]] ++ segments ++ [[Zx (lit "    ")]]) else zjoin nl segments.
+  if negb (is_nil segments) then zjoin znl ([[]] ++ segments ++ [[Zx (lit "    ")]]) else zjoin znl segments.
 
 Definition commands_function (bin_name : bytes) (subcommands_and_args : list zpiece) : list zpiece :=
   [Zx (lit "(( $+functions[_" ++ space_to_dd bin_name ++ lit "_commands] )) ||" ++ lf ++
@@ -297,7 +299,7 @@ Definition commands_function (bin_name : bytes) (subcommands_and_args : list zpi
           lit "    _describe -t commands '" ++ bin_name ++ lit " commands' commands ""$@""" ++ lf ++
           lit "}")].
 
-Definition subcommand_details (p : cmd) (d : cdesc) : option (list zpiece) :=
+Definition zsubcommand_details (p : cmd) (d : cdesc) : option (list zpiece) :=
   match c_bin p with
   | None => None                                  (* expect("crate::generate should have set the bin_name") *)
   | Some bin_name =>
@@ -312,7 +314,7 @@ Definition subcommand_details (p : cmd) (d : cdesc) : option (list zpiece) :=
                    | Some (m, md) => Some (commands_function bin_name (subcommands_of m md))
                    end) all_subcommand_bins with
           | None => None
-          | Some rest => Some (zjoin nl (parent_text :: rest))
+          | Some rest => Some (zjoin znl (parent_text :: rest))
           end
       end
   end.
@@ -322,7 +324,7 @@ Definition zsh_pieces (c : cmd) (d : cdesc) : option (list zpiece) :=
   match c_bin c with
   | None => None                                  (* expect("crate::generate should have set the bin_name") *)
   | Some name =>
-      match get_args_of c d None, get_subcommands_of (depth c) c d, subcommand_details c d with
+      match get_args_of c d None, get_subcommands_of (depth c) c d, zsubcommand_details c d with
       | Some initial_args, Some subcommands, Some details =>
           Some ([Zx (lit "#compdef " ++ name ++ lf ++ lf ++
                      lit "autoload -U is-at-least" ++ lf ++ lf ++
